@@ -94,7 +94,7 @@ def py_generator(ode, backend):
     return cls(ode, format=Format.none)
 
 
-def check_py_orders(ode, ref, backend, pt, res, expected_state, expected_mon, out, cn):
+def check_py_orders(ode, ref, backend, pt, res, expected_state, expected_mon, out, cn, raises_by_default=()):
     from gotranx.schemes import get_scheme
 
     cg = py_generator(ode, backend)
@@ -130,6 +130,8 @@ def check_py_orders(ode, ref, backend, pt, res, expected_state, expected_mon, ou
         try:
             r = np.asarray(f(*[vals[ch] for ch in order]))
         except Exception as exc:
+            if fn in raises_by_default:
+                continue  # the function raises in its default order too: not an argument-order event (C01-C03)
             out["violations"].append({"kind": "order_call_raises", "detail": {"fn": fn, "order": order, "exc": f"{type(exc).__name__}: {exc}"[:200], "backend": backend}})
             continue
         n_orders += 1
@@ -301,7 +303,18 @@ def run_case(spec, ctx):
                 except (E.Undefined, E.Undecidable, E.Unsupported):
                     continue
                 if C.judge(r.out[maps[kind][n]], val) not in ("ok", "skip"):
-                    out["violations"].append({"kind": "init_default_slot", "detail": {"fn": fn, "name": n, "slot": maps[kind][n], "got": r.out[maps[kind][n]], "expected": float(val.v), "backend": be}})
+                    owners = []
+                    for n2 in names:
+                        try:
+                            if n2 != n and C.judge(r.out[maps[kind][n]], ref.decl_value(n2)) == "ok":
+                                owners.append(n2)
+                        except (E.Undefined, E.Undecidable, E.Unsupported):
+                            pass
+                    if owners:
+                        out["violations"].append({"kind": "init_default_slot", "detail": {"fn": fn, "name": n, "slot": maps[kind][n], "got": r.out[maps[kind][n]], "expected": float(val.v), "value_belongs_to": owners[:3], "backend": be}})
+                    else:
+                        # a wrong value that is no other name's default is a value defect (C01-C03), not a slot mix-up
+                        cn["init_value_defects_not_slot_events"] = cn.get("init_value_defects_not_slot_events", 0) + 1
             if be != "c" and names:
                 for n in names[:4]:
                     r2 = m.run([(fn, {n: 123.456}, None, None)])[0]
@@ -335,6 +348,7 @@ def run_case(spec, ctx):
         calls = [("rhs", pt, None, None), ("monitor_values", pt, None, None), ("explicit_euler", pt, 0.25, None), ("generalized_rush_larsen", pt, 0.25, None)]
         rs = m.run(calls)
         compared = 0
+        raised = {c[0] for c, r in zip(calls, rs) if r.exc is not None}
         for (fn, _, _, _), r in zip(calls, rs):
             out["evaluations"] += 1
             exp, idx = (expected_mon, maps["monitor"]) if fn == "monitor_values" else (expected_state[fn], maps["state"])
@@ -364,7 +378,7 @@ def run_case(spec, ctx):
             if be == "c":
                 check_c_orders(ode, ref, pt, res, expected_state, expected_mon, out, cn, maps["state"], maps["parameter"], maps["monitor"], full=spec["klass"] == "prefix_names" or spec.get("tier") == "thorough")
             else:
-                check_py_orders(ode, ref, be, pt, res, expected_state, expected_mon, out, cn)
+                check_py_orders(ode, ref, be, pt, res, expected_state, expected_mon, out, cn, raises_by_default=raised)
         cn.setdefault("by_backend", {})[be] = compared
         out["nontrivial"] = compared >= 4
     finally:
